@@ -441,6 +441,11 @@ func checkCompoundLHS(
 	expr ast.Expr,
 	tok token.Token,
 ) *ImmutableViolation {
+	// *receiver += value overwrites the receiver like *receiver = value does
+	if star, ok := ast.Unparen(expr).(*ast.StarExpr); ok {
+		return checkReceiverCompound(ctx, stmt, star, tok)
+	}
+
 	selector, ok := ast.Unparen(expr).(*ast.SelectorExpr)
 	if !ok {
 		return nil
@@ -490,6 +495,48 @@ func checkCompoundLHS(
 		Code:     codes.ImmutableFieldCompoundAssign,
 		Pos:      selector.Pos(),
 		Reason:   fmt.Sprintf("cannot use %s on field %q of immutable type (outside constructor)", op, selector.Sel.Name),
+		Node:     stmt,
+	}
+}
+
+// checkReceiverCompound checks if a method updates its receiver in place (*receiver += value)
+// This is only checked for methods in the same package where the type is declared
+func checkReceiverCompound(
+	ctx *checkerContext,
+	stmt *ast.AssignStmt,
+	star *ast.StarExpr,
+	tok token.Token,
+) *ImmutableViolation {
+	// Check if we're in a method with a receiver
+	if ctx.currentReceiver == nil {
+		return nil
+	}
+
+	ident, ok := ast.Unparen(star.X).(*ast.Ident)
+	if !ok {
+		return nil
+	}
+
+	// Check if the identifier is the receiver (the same object, not just the same name)
+	if ident.Name != ctx.currentReceiver.name || ctx.pass.TypesInfo.Uses[ident] != ctx.currentReceiver.obj {
+		return nil
+	}
+
+	// Check if the receiver type is immutable
+	if !ctx.immutableTypes.Contains(ctx.currentReceiver.pkgPath, ctx.currentReceiver.typeName) {
+		return nil
+	}
+
+	// Allow in constructors
+	if isInConstructor(ctx, ctx.currentReceiver.pkgPath, ctx.currentReceiver.typeName) {
+		return nil
+	}
+
+	return &ImmutableViolation{
+		TypeName: ctx.currentReceiver.typeName,
+		Code:     codes.ImmutableFieldCompoundAssign,
+		Pos:      star.Pos(),
+		Reason:   fmt.Sprintf("cannot use %s on immutable receiver (outside constructor)", tok.String()),
 		Node:     stmt,
 	}
 }
